@@ -34,6 +34,21 @@ def _thr(case, unit):
         kw["min_relative_overlap"] = p / q
     return kw
 
+def _geom(g, tu, prov):
+    """the geometry of the case, fresh or derived by model_copy from a queried geometry of the same kind"""
+    real = build(g, tu)
+    if prov != "derived":
+        return real
+    from vt.geom import FREQ_UNIT as _fu
+    donor = build(g, tu * 2.0 + 0.25) if g["type"] in ("TimeStamp",) else build(g, tu * 2.0)
+    geometry.compute_bounds(donor)                      # the donor is used once ...
+    try:
+        geometry.have_temporal_overlap(donor, donor)
+    except Exception:
+        pass
+    return donor.model_copy(update={"coordinates": real.coordinates})   # ... then the case's geometry is derived from it
+
+
 def execute(case):
     k = case["kind"]
     r, rs = [], []
@@ -45,13 +60,13 @@ def execute(case):
             r.append(outcome(geometry.intervals_overlap, a, b, **kw))
             rs.append(outcome(geometry.intervals_overlap, b, a, **kw))
         elif k in ("time", "freq"):
-            g1, g2 = build(case["g1"], tu), build(case["g2"], tu)
+            g1, g2 = _geom(case["g1"], tu, case.get("prov", "fresh")), _geom(case["g2"], tu, case.get("prov", "fresh"))
             fn = geometry.have_temporal_overlap if k == "time" else geometry.have_frequency_overlap
             kw = _thr(case, tu if k == "time" else FREQ_UNIT)
             r.append(outcome(fn, g1, g2, **kw))
             rs.append(outcome(fn, g2, g1, **kw))
         elif k == "clip":
-            g = build(case["g"], tu)
+            g = _geom(case["g"], tu, case.get("prov", "fresh"))
             clip = data.Clip(recording=_recording(), start_time=case["clip"][0] * tu, end_time=case["clip"][1] * tu)
             o = outcome(geometry.is_in_clip, g, clip, case["m"] * tu) if case["m"] != 0 else outcome(geometry.is_in_clip, g, clip)
             r.append(o)
